@@ -286,6 +286,31 @@ Proof.
 Qed.
 Print Assumptions C13_error_mapping_rs.
 
+(* a payload that DECODES but is not a WAMP message (not a list, empty list, first element not an integer - boolean, float,
+   string, null, ... -, unknown or negative code, fields the class rejects) is a protocol violation on every transport:
+   WebSocket 1002 and nothing delivered, RawSocket abort.  The envelope spec is written from the message format. *)
+Theorem C13_protocol_violation_closes : forall r id re,
+  envelope_ok r = false ->
+  (forall bin att, ws_on_message bin att bin (classify r id re) = [WBailout 1002]) /\
+  (forall i, string_received i (classify r id re) = [Abort]).
+Proof. exact violation_closes. Qed.
+Print Assumptions C13_protocol_violation_closes.
+
+Theorem C13_envelope_accepts_only_integer_codes : forall r, envelope_ok r = true ->
+  exists z, r = RMsg (TInt z) true /\ (0 <= z)%Z /\ In (Z.to_N z) gen_wamp_type_codes.
+Proof. exact envelope_ok_inv. Qed.
+Print Assumptions C13_envelope_accepts_only_integer_codes.
+
+Theorem C13_envelope_rejects : 
+  (forall b ok, envelope_ok (RMsg (TBool b) ok) = false) /\ (forall ok, envelope_ok (RMsg TFloat ok) = false) /\
+  (forall ok, envelope_ok (RMsg TStr ok) = false) /\ (forall ok, envelope_ok (RMsg TNull ok) = false) /\
+  (forall ok, envelope_ok (RMsg TBytes ok) = false) /\ (forall ok, envelope_ok (RMsg TList ok) = false) /\
+  (forall ok, envelope_ok (RMsg TDict ok) = false) /\ envelope_ok RNotList = false /\ envelope_ok REmptyList = false /\
+  (forall z ok, (z < 0)%Z -> envelope_ok (RMsg (TInt z) ok) = false) /\
+  (forall z ok, ~ In (Z.to_N z) gen_wamp_type_codes -> envelope_ok (RMsg (TInt z) ok) = false).
+Proof. exact non_integer_codes_rejected. Qed.
+Print Assumptions C13_envelope_rejects.
+
 (* the only exceptions that can leave dataReceived / data_received of a RawSocket connection: both at the framing level
    (Twisted: lengthLimitExceeded raises; asyncio: PING/PONG frame -> ping()/pong() not implemented); none from a handshake *)
 Theorem C13_rs_escapes : forall c s d e,
@@ -407,3 +432,11 @@ Proof. vm_compute. repeat split; reflexivity. Qed.
 Example C13_ex_adapter_burst :
   snd (adapter_run [] [ARecv [1; 2]; ARecv [3]; ARecv [4; 5]; ATurn; ARecv [6]; ATurn]) = [[1; 2]; [3]; [4; 5]; [6]].
 Proof. vm_compute. reflexivity. Qed.
+
+(* [true, "realm", {...}] is not a HELLO: 1002 on WebSocket, abort on RawSocket; [36, ...] with acceptable fields is delivered *)
+Example C13_ex_bool_type_code :
+  ws_on_message false true false (classify (RMsg (TBool true) true) 7 ROk) = [WBailout 1002] /\
+  string_received Aio (classify (RMsg (TBool true) true) 7 ROk) = [Abort] /\
+  ws_on_message false true false (classify (RMsg (TInt 36) true) 7 ROk) = [WSessMsg 7] /\
+  envelope_ok (RMsg (TInt 1) true) = true /\ envelope_ok (RMsg (TInt 7) true) = false.
+Proof. vm_compute. repeat split; reflexivity. Qed.
